@@ -149,6 +149,7 @@ type State struct {
 	qbinders     []string // binders of the quantifiers being evaluated (spec evaluation)
 	ctxDoneChans map[string]Term
 	freshObjs    map[string]bool
+	callResults  map[string][]Value // "<callee>#<site ordinal>" -> results of that call on this path
 }
 
 func NewState() *State {
@@ -164,6 +165,7 @@ func NewState() *State {
 		permits:  map[string]int{},
 		ctxDoneChans: map[string]Term{},
 		freshObjs:    map[string]bool{},
+		callResults:  map[string][]Value{},
 	}
 }
 
@@ -207,6 +209,10 @@ func (s *State) Clone() *State {
 	}
 	c.heldLocks = append([]string(nil), s.heldLocks...)
 	c.ctxDoneChans = s.ctxDoneChans
+	c.callResults = make(map[string][]Value, len(s.callResults))
+	for k, v := range s.callResults {
+		c.callResults[k] = v
+	}
 	c.freshObjs = make(map[string]bool, len(s.freshObjs))
 	for k, v := range s.freshObjs {
 		c.freshObjs[k] = v
